@@ -9,7 +9,7 @@ do not share tables, iterators are not consumed.
 from hypothesis import strategies as st
 
 from vf import lab, values, oracle
-from vf.core import Prop, Outcome
+from vf.core import Prop, Outcome, fd
 
 from deep.api.tracepoint.trigger import Trigger, LineLocation, FunctionLocation, LocationAction, Location, \
     build_trigger
@@ -23,7 +23,7 @@ ALL_KINDS = (values.SCALAR_KINDS + values.CONTAINER_KINDS + values.NODICT_KINDS 
 REPO_TEST_KINDS = {'str', 'int', 'float', 'bool', 'tuple', 'list', 'set', 'frozenset', 'dict', 'list_iter',
                    'list_reviter', 'emptystr', 'none'}
 ITER_REMAINING = {'gen': [1, 2, 3], 'map': ['1', '2', '3'], 'zip': [(1, 'a'), (2, 'b')], 'range_iter': [0, 1, 2],
-                  'set_iter': [1], 'list_iter': [1, 2, 3], 'list_reviter': [3, 2, 1]}
+                  'set_iter': [1], 'list_iter': [1, 2, 3], 'list_reviter': [3, 2, 1], 'mailbox': [1, 2, 3]}
 SENT = {'s_int': 424242, 's_str': 'sentinel text', 's_list': [7, 'seven']}
 LIMITS = oracle.Limits()
 
@@ -96,7 +96,7 @@ class C06(Prop):
         vals = values.value_recipes(ALL_KINDS, min_nodes=1, max_nodes=14 if big else 8, max_items=4)
         actions = st.lists(st.sampled_from(['snapshot', 'snapshot', 'log', 'metric', 'snapshot+log']), min_size=1,
                            max_size=4)
-        return st.fixed_dictionaries({
+        return fd({
             'values': vals,
             'locals': st.lists(st.integers(0, 20), min_size=1, max_size=5),
             'sent_first': st.booleans(),
